@@ -158,6 +158,9 @@ struct Chan {
     /// the receive for record i is first polled once and abandoned (`now_or_never`), then issued
     /// again: the request is repeated with another waker
     recv_peek: Vec<bool>,
+    /// the same on the sending side: send(i) is first attempted once without blocking (a
+    /// throw-away poll while it is not its turn), then issued for real from the task
+    send_peek: Vec<bool>,
     /// receive(n): must see the end of the stream
     ask_eos: bool,
     /// send(total + k) on a specified channel: must be rejected
@@ -199,7 +202,7 @@ impl Scn {
                 "total_records": c.total.map_or(json!("indeterminate"), |t| json!(t)), "records": c.n,
                 "send_yields": c.send_delay.iter().map(|d| [d.0, d.1]).collect::<Vec<_>>(),
                 "recv_yields": c.recv_delay.iter().map(|d| [d.0, d.1]).collect::<Vec<_>>(),
-                "recv_peek_first": c.recv_peek,
+                "recv_peek_first": c.recv_peek, "send_attempted_first": c.send_peek,
                 "receive_past_total": c.ask_eos, "send_past_total": c.send_past, "receiver_created_first": c.recv_end_first, "sender_opened_after_yields": c.open_late,
                 "close_in_window": c.close_in_window,
             })).collect::<Vec<_>>(),
@@ -285,6 +288,8 @@ fn gen_scenario(src: &mut Src<'_>) -> Scn {
         let recv_delay = (0..=n).map(|_| (gen_delay(src, style).saturating_add(recv_late), gen_delay(src, style))).collect();
         let peeks = src.chance(1, 4);
         let recv_peek: Vec<bool> = (0..=n).map(|_| peeks && src.chance(1, 3)).collect();
+        let speeks = src.chance(1, 4);
+        let send_peek: Vec<bool> = (0..=n).map(|_| speeks && src.chance(1, 3)).collect();
         chans.push(Chan {
             kind,
             gate,
@@ -295,6 +300,7 @@ fn gen_scenario(src: &mut Src<'_>) -> Scn {
             send_delay,
             recv_delay,
             recv_peek,
+            send_peek,
             ask_eos,
             send_past: if !indeterminate && src.chance(1, 3) { Some(src.pick(&[0usize, 0, 1, 5])) } else { None },
             recv_end_first: src.bool(),
@@ -535,8 +541,17 @@ fn spawn_channel<N: ArrayLength>(world: &World, scn: &Scn, c: usize, sh: &Arc<Sh
             if let Some(tx) = tx {
             for i in 0..n {
                 let tx = Arc::clone(&tx);
+                let peek = ch.send_peek[i];
                 spawn_op(sh, c, Slot::Send(i), ch.send_delay[i], Some((Arc::clone(&send_prefix), i, window)), Some(Arc::clone(&send_prefix)), i, async move {
-                    classify_send(tx.send(RecordId::from(i), payload::<N>(salt, i)).await)
+                    // "can it go out right now?": one poll in a throw-away context, then the real send
+                    let early = if peek { futures::FutureExt::now_or_never(tx.send(RecordId::from(i), payload::<N>(salt, i))) } else { None };
+                    if peek && early.is_none() {
+                        tokio::task::yield_now().await;
+                    }
+                    classify_send(match early {
+                        Some(r) => r,
+                        None => tx.send(RecordId::from(i), payload::<N>(salt, i)).await,
+                    })
                 });
             }
             if ch.total.is_none() {
@@ -596,8 +611,17 @@ fn spawn_channel<N: ArrayLength>(world: &World, scn: &Scn, c: usize, sh: &Arc<Sh
             if let Some(tx) = tx {
             for i in 0..n {
                 let tx = Arc::clone(&tx);
+                let peek = ch.send_peek[i];
                 spawn_op(sh, c, Slot::Send(i), ch.send_delay[i], Some((Arc::clone(&send_prefix), i, window)), Some(Arc::clone(&send_prefix)), i, async move {
-                    classify_send(tx.send(RecordId::from(i), payload::<N>(salt, i)).await)
+                    // "can it go out right now?": one poll in a throw-away context, then the real send
+                    let early = if peek { futures::FutureExt::now_or_never(tx.send(RecordId::from(i), payload::<N>(salt, i))) } else { None };
+                    if peek && early.is_none() {
+                        tokio::task::yield_now().await;
+                    }
+                    classify_send(match early {
+                        Some(r) => r,
+                        None => tx.send(RecordId::from(i), payload::<N>(salt, i)).await,
+                    })
                 });
             }
             if ch.total.is_none() {
@@ -945,6 +969,7 @@ fn channels_case(env: &Env, src: &mut Src<'_>) -> CaseResult {
     l(ch.iter().any(|c| c.n * c.size > chunk_bytes(&scn, c)), "several_chunks");
     l(ch.len() > 1, "several_channels");
     l(ch.iter().any(|c| c.open_late > 0), "sender_opened_late");
+    l(ch.iter().any(|c| c.send_peek.iter().any(|p| *p)), "send_attempted_before_its_turn");
     l(ch.iter().any(|c| c.open_late > 0 && c.recv_peek.iter().any(|p| *p)), "peek_before_stream_is_registered");
     let pairs = || ch.iter().enumerate().flat_map(|(a, x)| ch.iter().skip(a + 1).map(move |y| (x, y)));
     l(
@@ -988,7 +1013,7 @@ pub fn subs(env: &Env) -> Vec<Sub> {
             30_000,
             1_500_000,
             channels_case,
-            "TestWorld with 1..3 shards, active in {2,4,16}, read_size in {1,3,16,2048}, 1..4 channels (helper pairs and shard pairs; later channels differ from an earlier one in one coordinate: peer, direction, step, shard, helper-vs-shard), message size in {1,2,3,4,5,7,8,14,18,32}, 1..40 records, specified or indeterminate total; one task per send and per receive with generated yield_now counts before entering the active window and before the operation (at most `active` records outstanding per side), optional late receivers / late senders, sending ends that are only opened after the receivers (and their throw-away peeks) have run, i.e. before the peer's stream is registered with the transport, receive(total) and send(>=total) probes; oracle: receive(i) = f(channel, i), end-of-stream or an error (any variant) on the receive-past-the-end probe and an error (any variant) on the send-past-the-total probe, every operation completes (exact quiescence detection through the runtime's park hook; wall-clock limit = rejected case); non-trivial = at least one send or receive issued out of index order",
+            "TestWorld with 1..3 shards, active in {2,4,16}, read_size in {1,3,16,2048}, 1..4 channels (helper pairs and shard pairs; later channels differ from an earlier one in one coordinate: peer, direction, step, shard, helper-vs-shard), message size in {1,2,3,4,5,7,8,14,18,32}, 1..40 records, specified or indeterminate total; one task per send and per receive with generated yield_now counts before entering the active window and before the operation (at most `active` records outstanding per side), optional late receivers / late senders, sends and receives that are first attempted once without blocking (a throw-away poll) and then issued for real, sending ends that are only opened after the receivers (and their throw-away peeks) have run, i.e. before the peer's stream is registered with the transport, receive(total) and send(>=total) probes; oracle: receive(i) = f(channel, i), end-of-stream or an error (any variant) on the receive-past-the-end probe and an error (any variant) on the send-past-the-total probe, every operation completes (exact quiescence detection through the runtime's park hook; wall-clock limit = rejected case); non-trivial = at least one send or receive issued out of index order",
         )
         .shrink_iters(300),
     ]
